@@ -22,34 +22,27 @@ theorem featBad_eq (fd : Dict) (f : Str) : featBad fd f = !featureValueOk (Dict.
 theorem featuresCheck_isOk (site : Str) (known : List Str) (fd : Dict) :
     isOkB (featuresCheck site known fd) = featuresAccept known fd := by
   unfold featuresCheck featuresAccept
-  by_cases hs : fd.any (fun kv => kv.1 == cs!"self") = true
-  · simp [hs, fail, isOkB]
-  · have hs' : fd.any (fun kv => kv.1 == cs!"self") = false := by
-      cases hc : fd.any (fun kv => kv.1 == cs!"self") with
-      | true => exact absurd hc hs
+  by_cases hb : known.any (featBad fd) = true
+  · simp only [hb, if_true, fail, isOkB]
+    symm
+    rw [Bool.eq_false_iff]
+    intro hall
+    rw [List.any_eq_true] at hb
+    obtain ⟨f, hf, hbad⟩ := hb
+    have := List.all_eq_true.mp hall f hf
+    rw [featBad_eq, this] at hbad
+    simp at hbad
+  · have hb' : known.any (featBad fd) = false := by
+      cases hc : known.any (featBad fd) with
+      | true => exact absurd hc hb
       | false => rfl
-    simp only [hs', Bool.false_eq_true, if_false, Bool.not_false, Bool.true_and]
-    by_cases hb : known.any (featBad fd) = true
-    · simp only [hb, if_true, fail, isOkB]
-      symm
-      rw [Bool.eq_false_iff]
-      intro hall
-      rw [List.any_eq_true] at hb
-      obtain ⟨f, hf, hbad⟩ := hb
-      have := List.all_eq_true.mp hall f hf
-      rw [featBad_eq, this] at hbad
-      simp at hbad
-    · have hb' : known.any (featBad fd) = false := by
-        cases hc : known.any (featBad fd) with
-        | true => exact absurd hc hb
-        | false => rfl
-      simp only [hb', Bool.false_eq_true, if_false, isOkB]
-      symm
-      rw [List.all_eq_true]
-      intro f hf
-      have := (List.any_eq_false.mp hb') f hf
-      rw [featBad_eq] at this
-      simpa using this
+    simp only [hb', Bool.false_eq_true, if_false, isOkB]
+    symm
+    rw [List.all_eq_true]
+    intro f hf
+    have := (List.any_eq_false.mp hb') f hf
+    rw [featBad_eq] at this
+    simpa using this
 
 theorem rolesLoop_isOk (site : Str) (allowed : List Str) (feats : List (Str × List Str)) :
     ∀ dr : Dict, isOkB (rolesLoop site allowed feats dr) = dr.all (roleEntryAccept allowed feats) := by
@@ -123,7 +116,8 @@ theorem parse_roles_spec (σ : Schema) (O : Oracles) (w : List WVal) (m : Msg) (
     ∃ rv, Dict.get? (σ.optsOf w) s.key = some rv ∧ rolesAccept allowed feats rv = true := by
   unfold Schema.parse at h
   obtain ⟨m', hps, _⟩ := bind_eq_ok h
-  unfold Schema.parseStage at hps
+  replace hps := (parseStage_fields hps).1
+  unfold Schema.parseFields at hps
   split at hps
   · simp [fail] at hps
   obtain ⟨pm, _, hps⟩ := bind_eq_ok hps
